@@ -86,38 +86,100 @@ def _check_filter_helper(program, res, name, want_op):
             res.fail_at("C24-S1", f, f"{name}:element", f"{name} transforms the elements (`{unparse(comp.elt)}`)", comp)
 
 
+FRESH_CTORS = ("OrderedSet",)
+
+
+def _fresh_value(v, self_ok: bool) -> bool:
+    """an expression that creates a new set object: OrderedSet(...), x.copy(), self.copy()"""
+    if isinstance(v, ast.Call):
+        if (dotted_name(v.func) or "").split(".")[-1] in FRESH_CTORS:
+            return True
+        if isinstance(v.func, ast.Attribute) and v.func.attr in ("copy", "__copy__"):
+            return True
+    return False
+
+
 def _check_union_like(res, f, first_desc, first_test, second_name):
-    """first operand consumed completely before the second; only add()"""
+    """a union helper (a) builds a *new* set: the object it adds to and returns is created inside the function on every path — never a
+    parameter, which would be extended in place; (b) puts the first operand's elements in before the second's; (c) only adds."""
     g = cfgmod.build(f.node)
-    d = depsmod.Deps(g, f.params())
-    first_nodes = []
-    second_loops = []
-    for n in g.stmt_nodes(("stmt", "iter")):
-        txt = unparse(n.cond) if n.kind == "iter" else unparse(n.stmt)
-        if first_test(n, txt):
-            first_nodes.append(n)
-        if n.kind == "iter":
-            roots = d.roots_at(n, n.cond)
-            if second_name in roots:
-                second_loops.append(n)
-    if not first_nodes or not second_loops:
-        raise AnalysisError(f"{f.qualname}: could not find the consumption of the first operand / the loop over `{second_name}`")
-    fn = first_nodes[0]
-    inner = second_loops[-1]
-    if g.dominates(fn.id, inner.id) and fn.id != inner.id:
-        res.ok("C24-S1", f"{f.qualname}: {first_desc} is consumed before `{second_name}`")
-    else:
-        res.fail_at("C24-S1", f, f"{f.qualname}:order",
-                    f"{f.qualname}: `{second_name}` is iterated before (or instead of) {first_desc}: elements of the "
-                    f"first operand would not come first", inner.stmt)
-    # only additions to the result
-    bad = [n for n in ast.walk(f.node) if isinstance(n, ast.Call) and isinstance(n.func, ast.Attribute)
-           and n.func.attr in ("discard", "remove", "pop", "clear", "move_to_end", "insert")]
-    if bad:
-        res.fail_at("C24-S1", f, f"{f.qualname}:removes", f"{f.qualname} calls {sorted({b.func.attr for b in bad})} while building a union", bad[0])
-    rets = [r for r in ast.walk(f.node) if isinstance(r, ast.Return)]
-    if not rets or rets[-1].value is None:
+    params = [p for p in f.params()]
+    first_param = "self" if first_desc == "self" else first_desc.split("`")[1]
+    rets = [r for r in g.returns() if r.stmt.value is not None]
+    if not rets:
         res.fail_at("C24-S1", f, f"{f.qualname}:return", f"{f.qualname} does not return the union")
+        return
+    ok_all = True
+    for r in rets:
+        if not isinstance(r.stmt.value, ast.Name):
+            if _fresh_value(r.stmt.value, True):
+                continue
+            raise AnalysisError(f"{f.qualname}: returned expression `{unparse(r.stmt.value)}` not understood")
+        acc = r.stmt.value.id
+        # (a) on every path to the return, the last assignment to the accumulator before its first mutation creates a new object
+        for path in g.paths(targets={r.id}, limit=5000):
+            fresh = acc not in params and False
+            first_source = None
+            order_ok = True
+            seen_second = False
+            for (nid, _lab) in path:
+                n = g.nodes[nid]
+                st = n.stmt
+                if n.kind == "stmt" and isinstance(st, ast.Assign) and len(st.targets) == 1 and isinstance(st.targets[0], ast.Name) and st.targets[0].id == acc:
+                    fresh = _fresh_value(st.value, True)
+                    if fresh and isinstance(st.value, ast.Call):
+                        src = unparse(st.value)
+                        if first_param in {x.id for x in ast.walk(st.value) if isinstance(x, ast.Name)}:
+                            first_source = first_source or "ctor"
+                # passing the head of a loop over the first operand consumes it (also when it is empty)
+                if n.kind == "iter" and isinstance(st, ast.For) and first_param in {x.id for x in ast.walk(st.iter) if isinstance(x, ast.Name)} and not seen_second:
+                    first_source = first_source or "loop"
+                # mutations of the accumulator
+                muts = []
+                if st is not None and n.kind in ("stmt", "iter"):
+                    scope = st if n.kind == "stmt" else None
+                    if scope is not None:
+                        for c in ast.walk(scope):
+                            if isinstance(c, ast.Call) and isinstance(c.func, ast.Attribute) and isinstance(c.func.value, ast.Name) and c.func.value.id == acc \
+                                    and c.func.attr in ("add", "update", "discard", "remove", "pop", "clear"):
+                                muts.append(c)
+                for c in muts:
+                    if not fresh:
+                        res.fail_at("C24-S1", f, f"{f.qualname}:extends-argument-in-place",
+                                    f"{f.qualname} calls `{unparse(c)[:40]}` on `{acc}`, which on some path is still the caller's own object (no new set was created): "
+                                    f"ordered_union(s, b) with an OrderedSet s adds b's elements to s itself — s then holds elements that were never added to it", c)
+                        ok_all = False
+                        break
+                    if c.func.attr in ("discard", "remove", "pop", "clear"):
+                        res.fail_at("C24-S1", f, f"{f.qualname}:removes", f"{f.qualname} calls {c.func.attr} while building a union", c)
+                        ok_all = False
+                    args_names = {x.id for a_ in c.args for x in ast.walk(a_) if isinstance(x, ast.Name)}
+                    # loop variable of an enclosing for over a parameter
+                    for (b_, _l) in g.lexical_guards(n):
+                        if b_.kind == "iter" and isinstance(b_.stmt, ast.For):
+                            args_names |= {x.id for x in ast.walk(b_.stmt.iter) if isinstance(x, ast.Name)}
+                            # nested loops over *args: for other in args: for k in other
+                    if second_name in args_names or any(second_name in {x.id for x in ast.walk(b_.stmt.iter) if isinstance(x, ast.Name)}
+                                                        for (b_, _l) in g.lexical_guards(n) if b_.kind == "iter" and isinstance(b_.stmt, ast.For)) \
+                            or (second_name == "args" and any(isinstance(a_, ast.Starred) for a_ in c.args)):
+                        seen_second = True
+                        if first_source is None:
+                            order_ok = False
+                    elif first_param in args_names or (first_param == "self" and "self" in args_names):
+                        first_source = first_source or "adds"
+                        if seen_second:
+                            order_ok = False
+                if not ok_all:
+                    break
+            if not ok_all:
+                break
+            if not order_ok:
+                res.fail_at("C24-S1", f, f"{f.qualname}:order",
+                            f"{f.qualname}: elements of `{second_name}` are added before (or instead of) those of {first_desc}: elements of the first operand would not come first", r.stmt)
+                ok_all = False
+                break
+    if ok_all:
+        res.ok("C24-S1", f"{f.qualname}: builds a new set, {first_desc} first, then `{second_name}`; only adds")
 
 
 def _s3_inherited_operators(program, res):
